@@ -18,10 +18,10 @@ OWNERS = {
     "hdkeychain/extendedkey.go": ["C04", "C05", "C15"],
     "wif.go": ["C06"],
     "bloom/filter.go": ["C09", "C10", "C08", "C20"],
-    "bloom/merkleblock.go": ["C10", "C11"],
+    "bloom/merkleblock.go": ["C10", "C11", "C08"],
     "bloom/murmurhash3.go": ["C09"],
     "merkleblock/decode.go": ["C12", "C11"],
-    "merkleblock/encode.go": ["C11", "C10"],
+    "merkleblock/encode.go": ["C11", "C10", "C08"],
     "gcs/gcs.go": ["C13", "C14", "C08", "C20"],
     "gcs/builder/builder.go": ["C14"],
     "block.go": ["C16", "C08"],
